@@ -1,24 +1,5 @@
-import B2Z.RegionsMain
+import B2Z.Proofs.RegionsMain
 namespace B2Z.Regions
-
-/-- `region.start = var.POS` -/
-def Reg.withStart : Reg → Nat → Reg
-  | .bounded c _ e, p => .bounded c p e
-  | .openEnd c _, p => .openEnd c p
-  | .whole c, p => .openEnd c p
-
-/-- `_filter_empty_and_refine` for one region -/
-def refine (recs : List Rec) (g : Reg) : Option Reg :=
-  match query recs g with
-  | [] => none
-  | r :: _ => some (g.withStart r.pos)
-
-def finalRegions (recs : List Rec) (gs : List Reg) : List Reg := gs.filterMap (refine recs)
-
-def Reg.start : Reg → Nat
-  | .bounded _ s _ => s
-  | .openEnd _ s => s
-  | .whole _ => 1
 
 theorem start_le_of_matches (g : Reg) (r : Rec) (h : g.matches r = true) : g.start ≤ r.pos := by
   cases g <;> simp only [Reg.matches, Bool.and_eq_true, beq_iff_eq, decide_eq_true_eq] at h <;>
